@@ -355,9 +355,72 @@ def run_stall_case(case):
         return _result(world, case, viol, {"replies_decoded": info["decoded"], "probe.reply_writer_blocked_by_unread_peer": int(bool(info.get("server_blocked"))), "probe.session_dropped_while_peer_not_reading": int("dropped_after" in info)})
 
 
+def gen_cancel_case(seed):
+    rnd = random.Random(seed * 4409 + 11)
+    replies = []
+    for _ in range(rnd.choice([4, 8, 12])):
+        code = str(rnd.choice([200, 211, 226, 250, 257, 331, 425, 500, 550]))
+        replies.append({"final": [code, ["".join(rnd.choice(ALPHA_ASCII) for _ in range(rnd.randint(1, 40))).strip() or "x"], False]})
+    return {"mode": "cancel", "seed": seed, "encoding": "utf-8", "replies": replies, "limit": rnd.choice([20, 60, 200, None]), "timeouts": [rnd.choice([0.0005, 0.01, 0.2, 1.0, 5.0]) for _ in replies]}
+
+
+def run_cancel_case(case):
+    """The caller gives up on a command (its own `wait_for` around `client.command`) while the
+    client - slowed down by a read speed limit - is still waiting for the single-line reply,
+    and later reads the pending reply with `command(None, code)`.  A reply is never lost or
+    torn by that: every reply comes back exactly once, complete, in order."""
+    rng = random.Random(case["seed"] * 7919 + 83)
+    net = scenario.random_net(rng, allow_small_pipe=False)
+    sc = {"seed": case["seed"], "net": net}
+    viol = []
+    info = {"decoded": 0, "given_up": 0}
+    world = scenario.setup_world(sc, max_steps=2_000_000)
+    with world:
+        scenario.apply_net(world.net, net)
+        server = EchoServer(case["replies"], [aioftp.User()], path_io_factory=aioftp.MemoryPathIO)
+        world.server = server
+        client = aioftp.Client(path_io_factory=aioftp.MemoryPathIO, read_speed_limit=case.get("limit"))
+
+        async def main():
+            await server.start("127.0.0.1", 2121)
+            await client.connect("127.0.0.1", 2121)
+            for i, item in enumerate(case["replies"]):
+                code, lines, _lst = item["final"]
+                try:
+                    try:
+                        got = await asyncio.wait_for(client.command(f"ECHO {i}", code), case["timeouts"][i])
+                    except asyncio.TimeoutError:
+                        info["given_up"] += 1
+                        got = await asyncio.wait_for(client.command(None, code), 1e5)
+                except aioftp.StatusCodeError as e:
+                    viol.append({"clause": "reply-misread", "subject": "caller-timeout", "detail": f"reply #{i} {item['final']!r} after the caller gave up on {info['given_up']} commands (read limit {case.get('limit')}): client raised StatusCodeError expected {e.expected_codes} received {e.received_codes} info {e.info!r}"[:500]})
+                    return
+                except asyncio.TimeoutError:
+                    viol.append({"clause": "reply-never-completed", "subject": "caller-timeout", "detail": f"reply #{i} {item['final']!r}: after the caller's timeout of {case['timeouts'][i]}s the pending reply never arrived (read limit {case.get('limit')})"})
+                    return
+                gcode, ginfo = got
+                want = expected_info(lines)
+                if str(gcode) != code or [g[1:] for g in ginfo] != want:
+                    viol.append({"clause": "reply-decoded-differently", "subject": "caller-timeout", "detail": f"reply #{i}: sent {code} {lines!r}; client decoded {str(gcode)} {ginfo!r}"[:500]})
+                    return
+                info["decoded"] += 1
+            await client.quit()
+            await asyncio.sleep(1)
+            await common.close_server(server)
+
+        world.run(main())
+        if world.outcome not in ("ok", "budget", "deadlock"):
+            raise common.HarnessError(f"scenario failed: {world.outcome}: {world.error!r}")
+        if world.outcome == "deadlock":
+            viol.append({"clause": "reply-never-completed", "subject": "caller-timeout:deadlock", "detail": "client and server both wait for ever"})
+        return _result(world, case, viol, {"replies_decoded": info["decoded"], "probe.commands_the_caller_gave_up_on": info["given_up"]})
+
+
 def run_case(case):
     if case["mode"] == "stall":
         return run_stall_case(case)
+    if case["mode"] == "cancel":
+        return run_cancel_case(case)
     return run_echo_case(case) if case["mode"] == "echo" else run_bad_case(case)
 
 
@@ -443,6 +506,8 @@ def main(argv=None):
                     yield {"mode": "bad", "seed": a.seed * 1_000_000 + i}
                 if i % 25 == 1:
                     yield gen_stall_case(a.seed * 1_000_000 + i)
+                if i % 12 == 5:
+                    yield gen_cancel_case(a.seed * 1_000_000 + i)
 
         cases = common.with_samples(gen(), 2)
         for case, res in pool.map(run_case, cases, deadline=deadline, chunksize=16):
